@@ -21,11 +21,41 @@ import json
 import logging
 import os
 import shutil
+import signal
 import subprocess
 import sys
 import tempfile
 import traceback
 from pathlib import Path
+
+# ---- watchdog: no stage of a case may run for ever.  A parse / compile / re-parse that does not finish is a result
+# of its own ("HANG", with the stage), not a harness failure: the case is reported and the worker goes on.
+T_PARSE = float(os.environ.get("VERIF_EMIT_T_PARSE", "20"))      # Parser.parse of one closure (normally milliseconds)
+T_COMPILE = float(os.environ.get("VERIF_EMIT_T_COMPILE", "40"))  # pyrtma.compile.compile, all five outputs
+T_LOAD = float(os.environ.get("VERIF_EMIT_T_LOAD", "120"))       # python import / gcc / node, each in its own subprocess
+
+
+class Hang(BaseException):
+    """raised by the SIGALRM handler inside the stage that did not finish (BaseException: not swallowed by the
+    `except Exception` clauses of the code under test)"""
+
+    def __init__(self, stage, seconds):
+        super().__init__(f"{stage} did not finish within {seconds:g} s")
+        self.stage = stage
+
+
+@contextlib.contextmanager
+def watchdog(stage: str, seconds: float):
+    def on_alarm(signum, frame):
+        raise Hang(stage, seconds)
+    old = signal.signal(signal.SIGALRM, on_alarm)
+    signal.setitimer(signal.ITIMER_REAL, seconds)
+    try:
+        yield
+    finally:
+        signal.setitimer(signal.ITIMER_REAL, 0)
+        signal.signal(signal.SIGALRM, old)
+
 
 OUTS = {"python": "gen.py", "javascript": "gen.js", "matlab": "gen.m", "c": "gen.h", "combined": "gen_combined.yaml"}
 
@@ -205,10 +235,13 @@ def do_compile(root: Path, out: Path, auto_pad, import_coredefs, cwd=None):
         with contextlib.redirect_stdout(buf), contextlib.redirect_stderr(buf):
             logging.disable(logging.CRITICAL)
             try:
-                rtma_compile([str(root)], str(out), "gen", python=True, javascript=True, matlab=True, c_lang=True,
-                             combined=True, auto_pad=auto_pad, import_coredefs=import_coredefs)
+                with watchdog("compile", T_COMPILE):
+                    rtma_compile([str(root)], str(out), "gen", python=True, javascript=True, matlab=True, c_lang=True,
+                                 combined=True, auto_pad=auto_pad, import_coredefs=import_coredefs)
             finally:
                 logging.disable(logging.NOTSET)
+    except Hang as e:
+        exc = "HANG: %s" % e
     except BaseException as e:  # noqa
         exc = "%s: %s" % (type(e).__name__, str(e)[:300])
     finally:
@@ -221,8 +254,12 @@ def do_compile(root: Path, out: Path, auto_pad, import_coredefs, cwd=None):
 
 
 def load_python(pyfile: Path, env):
-    p = subprocess.run([sys.executable, "-c", PYLOAD, str(pyfile)], capture_output=True, text=True, env=env, cwd="/",
-                       timeout=120)
+    try:
+        p = subprocess.run([sys.executable, "-c", PYLOAD, str(pyfile)], capture_output=True, text=True, env=env, cwd="/",
+                           timeout=T_LOAD)
+    except subprocess.TimeoutExpired:
+        return dict(ok=False, err=f"HANG: import of the generated module did not finish within {T_LOAD:g} s", classes=[], ints={},
+                    aliases={}, strs={})
     for ln in p.stdout.splitlines():
         if ln.startswith("@@PYLOAD"):
             return json.loads(ln[8:])
@@ -235,9 +272,9 @@ def load_js(jsfile: Path, workdir: Path):
     drv = workdir / "drv.mjs"
     drv.write_text(JSLOAD)
     try:
-        p = subprocess.run(["node", str(drv), str(mjs)], capture_output=True, text=True, timeout=120, cwd=str(workdir))
+        p = subprocess.run(["node", str(drv), str(mjs)], capture_output=True, text=True, timeout=T_LOAD, cwd=str(workdir))
     except subprocess.TimeoutExpired:
-        return dict(ok=False, err="node timeout", SDF={}, MDF={}, scal={})
+        return dict(ok=False, err=f"HANG: node did not finish within {T_LOAD:g} s", SDF={}, MDF={}, scal={})
     for ln in p.stdout.splitlines():
         if ln.startswith("@@JSLOAD"):
             return json.loads(ln[8:])
@@ -249,7 +286,11 @@ def load_c(hfile: Path, workdir: Path, model, core: bool, cc="gcc"):
     pre = "#include <stdint.h>\n#include <stddef.h>\n#include <stdio.h>\n" + (C_CORE_PRELUDE if core else "")
     tu = workdir / "syntax.c"
     tu.write_text(pre + f'#include "{hfile.name}"\nint main(void){{return 0;}}\n')
-    p = subprocess.run([cc, "-std=gnu11", "-fsyntax-only", "-I", str(hfile.parent), str(tu)], capture_output=True, text=True)
+    try:
+        p = subprocess.run([cc, "-std=gnu11", "-fsyntax-only", "-I", str(hfile.parent), str(tu)], capture_output=True, text=True,
+                           timeout=T_LOAD)
+    except subprocess.TimeoutExpired:
+        return dict(ok=False, err=f"HANG: {cc} -fsyntax-only did not finish within {T_LOAD:g} s", warn="", probe=None)
     res = dict(ok=p.returncode == 0, err=p.stderr[-600:] if p.returncode else "", warn="", probe=None)
     if p.returncode == 0 and p.stderr.strip():
         res["warn"] = p.stderr[-600:]
@@ -271,11 +312,16 @@ def load_c(hfile: Path, workdir: Path, model, core: bool, cc="gcc"):
     src = workdir / "probe.c"
     src.write_text("\n".join(lines))
     exe = workdir / "probe"
-    p = subprocess.run([cc, "-std=gnu11", "-w", "-I", str(hfile.parent), str(src), "-o", str(exe)], capture_output=True, text=True)
-    if p.returncode != 0:
-        res["probe"] = dict(error=p.stderr[-600:])
+    try:
+        p = subprocess.run([cc, "-std=gnu11", "-w", "-I", str(hfile.parent), str(src), "-o", str(exe)], capture_output=True, text=True,
+                           timeout=T_LOAD)
+        if p.returncode != 0:
+            res["probe"] = dict(error=p.stderr[-600:])
+            return res
+        o = subprocess.run([str(exe)], capture_output=True, text=True, timeout=T_LOAD).stdout
+    except subprocess.TimeoutExpired:
+        res["probe"] = dict(error=f"HANG: probe did not build / run within {T_LOAD:g} s")
         return res
-    o = subprocess.run([str(exe)], capture_output=True, text=True).stdout
     pr = {}
     for ln in o.splitlines():
         t = ln.split()
@@ -307,7 +353,14 @@ def run_case(case):
         parser = quiet_parser(Parser, auto_pad=ap, import_coredefs=core)
         try:
             with contextlib.redirect_stdout(io.StringIO()), contextlib.redirect_stderr(io.StringIO()):
-                parser.parse(root)
+                with watchdog("parse", T_PARSE):
+                    parser.parse(root)
+        except Hang as e:
+            res["exc"] = "HANG"
+            res["hang"] = e.stage
+            res["is_parser_error"] = False
+            res["msg"] = "Parser.parse " + str(e)
+            return res
         except BaseException as e:  # noqa
             res["exc"] = type(e).__name__
             res["is_parser_error"] = isinstance(e, PM.ParserError)
@@ -332,8 +385,9 @@ def run_case(case):
                 try:
                     p2 = quiet_parser(Parser, auto_pad=ap, import_coredefs=core)
                     with contextlib.redirect_stdout(io.StringIO()), contextlib.redirect_stderr(io.StringIO()):
-                        p2.parse(root)
-                        f(p2).generate(o2 / OUTS[lang])
+                        with watchdog("separate:" + lang, T_COMPILE):
+                            p2.parse(root)
+                            f(p2).generate(o2 / OUTS[lang])
                     res["separate"][lang] = (o2 / OUTS[lang]).read_text()
                 except BaseException as e:  # noqa
                     res["separate"][lang] = "EXC %s: %s" % (type(e).__name__, str(e)[:200])
@@ -368,9 +422,13 @@ def run_case(case):
                 p3 = quiet_parser(Parser, auto_pad=ap and o["AUTO_PAD"], import_coredefs=o["IMPORT_COREDEFS"],
                                   validate_alignment=o["VALIDATE_ALIGNMENT"])
                 with contextlib.redirect_stdout(io.StringIO()), contextlib.redirect_stderr(io.StringIO()):
-                    p3.parse(comb)
+                    with watchdog("reparse-combined", T_PARSE):
+                        p3.parse(comb)
                 rt["ok"] = True
                 rt["model"] = dump_parser(p3)
+            except Hang as e:
+                rt["exc"] = "HANG"
+                rt["msg"] = "re-parsing the combined YAML: " + str(e)
             except BaseException as e:  # noqa
                 rt["exc"] = type(e).__name__
                 rt["msg"] = str(e)[:300]
@@ -401,9 +459,12 @@ def run_case(case):
                     f" c_lang=True, combined=True, auto_pad={ap!r}, import_coredefs={core!r})\n")
             env3 = dict(env)
             env3["PYTHONHASHSEED"] = str(case.get("hashseed", 12345))
-            p = subprocess.run([sys.executable, "-c", code], capture_output=True, text=True, env=env3, cwd=str(o3), timeout=300)
-            if p.returncode != 0:
-                det["sub_exc"] = (p.stderr or p.stdout)[-300:]
+            try:
+                p = subprocess.run([sys.executable, "-c", code], capture_output=True, text=True, env=env3, cwd=str(o3), timeout=T_LOAD)
+                if p.returncode != 0:
+                    det["sub_exc"] = (p.stderr or p.stdout)[-300:]
+            except subprocess.TimeoutExpired:
+                det["sub_exc"] = f"HANG: compile() in a fresh interpreter did not finish within {T_LOAD:g} s"
             det["sub"] = {lang: ((o3 / fn).read_text() if (o3 / fn).exists() else None) for lang, fn in OUTS.items()}
             res["det"] = det
         return res
